@@ -576,17 +576,36 @@ class StmtMixin:
                 if c is not None:
                     out.append(c.key)
         elif isinstance(f, ast.Attribute):
-            recv = st.env.get(f.value.id) if isinstance(f.value, ast.Name) else None
-            if recv is not None and isinstance(recv.ty, T.ObjT):
-                k = self.method_key(recv.ty.cls, f.attr)
+            rty = self.static_type(f.value, st)
+            if isinstance(rty, T.Opt):
+                rty = rty.elem
+            if isinstance(rty, T.ObjT):
+                k = self.method_key(rty.cls, f.attr)
                 if k is not None:
                     return [k]
-            if recv is not None and recv.ty not in (T.PY, T.FUN) and not isinstance(recv.ty, T.ObjT):
+                if (rty.name, f.attr) in self.method_rules:
+                    return []
+            if rty is not None and rty not in (T.PY, T.FUN) and not isinstance(rty, T.ObjT):
                 return []       # method of a modelled builtin value: handled by the mutator scan
             for key, c in self.contracts.items():
                 if key.endswith("." + f.attr) and not key.startswith(("refine:", "dispatch:")):
                     out.append(key)
         return out
+
+    def static_type(self, node, st):
+        """static type of a Name / attribute chain without evaluating it (None when unknown)"""
+        if isinstance(node, ast.Name):
+            v = st.env.get(node.id)
+            return v.ty if v is not None else None
+        if isinstance(node, ast.Attribute):
+            bt = self.static_type(node.value, st)
+            if isinstance(bt, T.Opt):
+                bt = bt.elem
+            if isinstance(bt, T.ObjT):
+                f = self.find_field(bt.cls, node.attr)
+                if f is not None and f[0] in ("field", "const") and isinstance(f[2], T.Ty):
+                    return f[2]
+        return None
 
     def funv_keys(self, fz):
         if fz.kind == "contract":
